@@ -702,8 +702,17 @@ func c28LinBuffer(c *ev.Ctx, r *rand.Rand, caseN int) {
 	evs := c14events(parents, uint64(caseN)*10)
 	var cmu sync.Mutex
 	connected := map[hash.Event]dag.Event{}
+	slowProcess := caseN/6%3 == 1
 	buf := dagordering.New(dag.Metric{Num: 100, Size: 1 << 20}, dagordering.Callback{
-		Process: func(e dag.Event) error { cmu.Lock(); connected[e.ID()] = e; cmu.Unlock(); return nil },
+		Process: func(e dag.Event) error {
+			if slowProcess {
+				time.Sleep(60 * time.Microsecond) // the push that connects an event stays inside the buffer for a while
+			}
+			cmu.Lock()
+			connected[e.ID()] = e
+			cmu.Unlock()
+			return nil
+		},
 		Get: func(id hash.Event) dag.Event {
 			cmu.Lock()
 			defer cmu.Unlock()
@@ -714,6 +723,9 @@ func c28LinBuffer(c *ev.Ctx, r *rand.Rand, caseN int) {
 		},
 		Exists: func(id hash.Event) bool { cmu.Lock(); defer cmu.Unlock(); return connected[id] != nil },
 	})
+	if slowProcess {
+		c.Count("ordering_buffer_histories_with_a_slow_process_callback", 1)
+	}
 	rec := &hist.Recorder{}
 	clients := 3 + r.Intn(2)
 	seeds := make([]int64, clients)
